@@ -111,7 +111,7 @@ def alloc_worker(args):
     chk, i = args[0], args[1]
     out = None
     for attempt in range(5):
-        out = alloc_worker1((chk, i, i + 8000 * attempt))
+        out = alloc_worker1((chk, i, i + 9000 * attempt))      # (9000 keeps i % 9, the kind)
         if not out.get("skipped"):
             break
     return out
